@@ -75,6 +75,7 @@ class Ctx:
         if not os.environ.get("VERIF_KEEP"):
             atexit.register(shutil.rmtree, self.scratch, True)
         self._n = 0
+        self._lock = __import__("threading").Lock()
 
     @property
     def quick(self):
@@ -84,8 +85,10 @@ class Ctx:
         return quick if self.tier == "quick" else thorough
 
     def subdir(self, name):
-        self._n += 1
-        d = os.path.join(self.scratch, "%02d_%s" % (self._n, name))
+        with self._lock:        # checks start TLC runs / builds from thread pools
+            self._n += 1
+            n = self._n
+        d = os.path.join(self.scratch, "%02d_%s" % (n, name))
         os.makedirs(d)
         return d
 
